@@ -50,7 +50,7 @@ Definition wit_ok : value :=
     (VObj (wm1, [lit "Outer"; lit "Inner"]) [(lit "v", VFloat fl_nan)])
     (VEnum (wm1, [lit "Color"]) (lit "RED")) fixed
     (VList [VDecimal (lit "NaN"); VQName (lit "{u}l"); VStr (lit "a'b""c\" ++ [10%N]); VFloat fl_neg_inf;
-            VTuple []; VDuration (lit "P1Y"); VDict [(VStr (lit "k"), VBytes BHex [0%N; 39%N])]])
+            VTuple []; VTuple [VInt 1; VStr (lit "x")]; VSet true [VInt 3]; VDuration (lit "P1Y"); VDict [(VStr (lit "k"), VBytes BHex [0%N; 39%N])]])
     VNone.
 
 (* Outer(any=datetime.date(2020, 1, 2)) *)
@@ -60,12 +60,12 @@ Definition witnesses : list value :=
   [wit_tuple; wit_enum; wit_collision; wit_qname; wit_init; wit_std; wit_ok].
 
 (* the other clauses of the guard hold: each witness isolates one clause *)
-Definition only_array W v := negb (g_array W v) && g_imports W v && g_init W v && g_std W v.
-Definition only_imports W v := g_array W v && negb (g_imports W v) && g_init W v && g_std W v.
-Definition only_init W v := g_array W v && g_imports W v && negb (g_init W v) && g_std W v.
-Definition only_std W v := g_array W v && g_imports W v && g_init W v && negb (g_std W v).
+Definition only_imports W v := negb (g_imports W v) && g_init W v && g_std W v.
+Definition only_init W v := g_imports W v && negb (g_init W v) && g_std W v.
+Definition only_std W v := g_imports W v && g_init W v && negb (g_std W v).
 
-Lemma array_refuted : wf W_wit wit_tuple = true /\ only_array W_wit wit_tuple = true /\ roundtrip W_wit wit_tuple = false.
+(* non-empty tuples written as lists: repaired in /repo a2ce0be; kept as a regression witness *)
+Lemma array_fixed : wf W_wit wit_tuple = true /\ guard W_wit wit_tuple = true /\ roundtrip W_wit wit_tuple = true.
 Proof. vm_compute. auto 10. Qed.
 (* members of inner Enums: repaired in /repo fc8f170; kept as a regression witness *)
 Lemma inner_enum_fixed : wf W_wit wit_enum = true /\ guard W_wit wit_enum = true /\ roundtrip W_wit wit_enum = true.
